@@ -394,6 +394,11 @@ class Check:
             else:
                 new_failures.append(f)
 
+        if os.environ.get('VERIF_DEBUG'):
+            for f in orc.failures[:40]:
+                log('ORACLE-FAILURE', json.dumps(f, default=str)[:600])
+            for f in corr.failures[:40]:
+                log('CORR-FAILURE', json.dumps(f, default=str)[:600])
         for k in known:
             if k['id'] in reproduced:
                 print(f"KNOWN-FINDING: property={pid} {k['id']} {k['what']}")
